@@ -630,3 +630,525 @@ Proof.
     destruct (invert_spec _ _ _ _ _ (Nat.lt_lt_succ_r _ _ L1) W1 (I1 Hi) Eq) as (W' & E' & L' & T' & I').
     split; [exact W'|]. split; [eauto using ext_trans|]. split; [exact L'|]. split; [now rewrite T', T1|auto].
 Qed.
+
+(** * C08, boolean algebra: the truth of a constructed expression *)
+Definition truth (o : objs) (w : wt) : bool := let '(o', n) := mk_notif o w in cond_true o' n.
+
+Theorem mk_notif_sem o w : wf o -> well_formed_wt o w -> let '(o', n) := mk_notif o w in cond_true o' n = sem o w.
+Proof. intros W OK. destruct (mk_notif o w) as [o' n] eqn:E. destruct (mk_notif_spec w o o' n W OK E) as (_ & _ & _ & T & _). exact T. Qed.
+Corollary truth_sem o w : wf o -> well_formed_wt o w -> truth o w = sem o w.
+Proof. intros W OK. pose proof (mk_notif_sem o w W OK) as H. unfold truth. destruct (mk_notif o w). exact H. Qed.
+
+Theorem mk_notif_wf o w : wf o -> well_formed_wt o w -> let '(o', n) := mk_notif o w in wf o' /\ ext o o' /\ n < length (notifs o').
+Proof. intros W OK. destruct (mk_notif o w) as [o' n] eqn:E. destruct (mk_notif_spec w o o' n W OK E) as (A & B & C & _). auto. Qed.
+
+(** constructing an expression only appends objects (and listeners): every existing object, including its
+    waiting list, is untouched and every existing condition keeps its truth value *)
+Theorem mk_notif_preserves o w : wf o -> well_formed_wt o w ->
+  let '(o', _) := mk_notif o w in
+  (exists l, notifs o' = notifs o ++ l) /\ forall m, m < length (notifs o) -> cond_true o' m = cond_true o m.
+Proof.
+  intros W OK. destruct (mk_notif o w) as [o' n] eqn:E. destruct (mk_notif_spec w o o' n W OK E) as (W' & E' & _).
+  split; [apply E'|]. intros m Hm. apply cond_true_ext; auto.
+Qed.
+
+Lemma wt_ok_and o a b : wt_ok o (WAnd a b) = true -> wt_ok o a = true /\ wt_ok o b = true.
+Proof. cbn. intros H. apply andb_true_iff in H. destruct H as [H _]. now apply andb_true_iff in H. Qed.
+Theorem and_is_and o a b : wf o -> well_formed_wt o (WAnd a b) -> truth o (WAnd a b) = truth o a && truth o b.
+Proof. intros W OK. destruct (wt_ok_and _ _ _ OK). rewrite !truth_sem; auto. Qed.
+Theorem or_is_or o a b : wf o -> well_formed_wt o (WOr a b) -> truth o (WOr a b) = truth o a || truth o b.
+Proof. intros W OK. destruct (wt_ok_and _ _ _ OK). rewrite !truth_sem; auto. Qed.
+Theorem not_is_not o c : wf o -> well_formed_wt o (WNot c) -> truth o (WNot c) = negb (truth o c).
+Proof. intros W OK. pose proof OK as OK'. cbn in OK'. apply andb_true_iff in OK'. destruct OK'. rewrite !truth_sem; auto. Qed.
+Theorem double_inversion o c : wf o -> well_formed_wt o (WNot (WNot c)) -> truth o (WNot (WNot c)) = truth o c.
+Proof.
+  intros W OK. pose proof OK as OK'. cbn in OK'. apply andb_true_iff in OK'. destruct OK' as [OK' _].
+  apply andb_true_iff in OK'. destruct OK'. rewrite !truth_sem; auto. cbn. apply negb_involutive.
+Qed.
+Lemma wt_ok_demorgan o a b (W1 W2 : wt -> wt -> wt) :
+  (forall x y, wt_ok o (W1 x y) = wt_ok o x && wt_ok o y && (is_cond x && is_cond y)) ->
+  (forall x y, wt_ok o (W2 x y) = wt_ok o x && wt_ok o y && (is_cond x && is_cond y)) ->
+  (forall x y, invertible (W1 x y) = invertible x && invertible y) ->
+  wt_ok o (WNot (W1 a b)) = true -> wt_ok o (W2 (WNot a) (WNot b)) = true.
+Proof.
+  intros H1 H2 H3. cbn [wt_ok]. rewrite H1, H2, H3. cbn [wt_ok is_cond]. intros H.
+  repeat match goal with H : _ && _ = true |- _ => apply andb_true_iff in H; destruct H end.
+  repeat (apply andb_true_iff; split); auto.
+Qed.
+Theorem de_morgan_and o a b : wf o -> well_formed_wt o (WNot (WAnd a b)) ->
+  well_formed_wt o (WOr (WNot a) (WNot b)) /\ truth o (WNot (WAnd a b)) = truth o (WOr (WNot a) (WNot b)).
+Proof.
+  intros W OK. assert (OK' : well_formed_wt o (WOr (WNot a) (WNot b))) by (apply (wt_ok_demorgan o a b WAnd WOr); auto).
+  split; auto. rewrite !truth_sem; auto. cbn. apply negb_andb.
+Qed.
+Theorem de_morgan_or o a b : wf o -> well_formed_wt o (WNot (WOr a b)) ->
+  well_formed_wt o (WAnd (WNot a) (WNot b)) /\ truth o (WNot (WOr a b)) = truth o (WAnd (WNot a) (WNot b)).
+Proof.
+  intros W OK. assert (OK' : well_formed_wt o (WAnd (WNot a) (WNot b))) by (apply (wt_ok_demorgan o a b WOr WAnd); auto).
+  split; auto. rewrite !truth_sem; auto. cbn. apply negb_orb.
+Qed.
+
+(** * initial states are well formed *)
+Definition wf0 (o : objs) : Prop :=
+  (forall n, match kind_of o n with NPlain => True | NFlag f | NInvFlag f => f < length (flags o) | _ => False end) /\
+  (forall f, f < length (flags o) ->
+             kind_of o (fnid (get_flag o f)) = NFlag f /\ kind_of o (finv (get_flag o f)) = NInvFlag f) /\
+  tasks o = [] /\ tnames o = [].
+Lemma wf0_wf o : wf0 o -> wf o.
+Proof.
+  intros (A & B & C & D). split; auto.
+  - intros n. specialize (A n). destruct (kind_of o n); cbn; auto; contradiction.
+  - rewrite C. cbn. intros; lia.
+  - rewrite D. cbn. discriminate.
+Qed.
+Lemma nth_Forall {A} (P : A -> Prop) l d : Forall P l -> P d -> forall i, P (nth i l d).
+Proof. intros H Hd. induction H; destruct i; cbn; auto. Qed.
+Lemma kind_grow o o' l : notifs o' = notifs o ++ l -> Forall (fun x => nk x = NPlain) l -> forall n, kind_of o' n = kind_of o n.
+Proof.
+  intros N F n. unfold kind_of, get_notif. rewrite N. destruct (Nat.lt_ge_cases n (length (notifs o))).
+  - now rewrite app_nth1.
+  - rewrite app_nth2, (nth_overflow (notifs o)) by auto. apply (nth_Forall (fun x => nk x = NPlain)); auto.
+Qed.
+Lemma wf0_grow o o' l : wf0 o -> notifs o' = notifs o ++ l -> Forall (fun x => nk x = NPlain) l ->
+  flags o' = flags o -> tasks o' = tasks o -> tnames o' = tnames o -> wf0 o'.
+Proof.
+  intros (A & B & C & D) N F Fl T Tn. pose proof (kind_grow o o' l N F) as K. unfold wf0, get_flag.
+  rewrite Fl, T, Tn. repeat split; auto.
+  - intros n. rewrite K. apply A.
+  - rewrite K. apply B, H.
+  - rewrite K. apply B, H.
+Qed.
+Lemma wf0_empty start nroots : wf0 (empty_objs start nroots).
+Proof.
+  split; [|split; [|split; reflexivity]].
+  - intros n. unfold kind_of, get_notif. cbn. destruct n; exact I.
+  - cbn. intros; lia.
+Qed.
+Lemma kind_alloc_flag o n :
+  kind_of (fst (alloc_flag o)) n =
+  if Nat.eqb n (S (length (notifs o))) then NInvFlag (length (flags o))
+  else if Nat.eqb n (length (notifs o)) then NFlag (length (flags o)) else kind_of o n.
+Proof.
+  change (kind_of (fst (alloc_flag o)) n) with
+    (kind_of (fst (alloc_notif (fst (alloc_notif o (NFlag (length (flags o))))) (NInvFlag (length (flags o))))) n).
+  rewrite !kind_of_alloc, len_alloc. reflexivity.
+Qed.
+Lemma flags_alloc_flag o :
+  flags (fst (alloc_flag o)) = flags o ++ [{| fval := false; fnid := length (notifs o); finv := S (length (notifs o)) |}].
+Proof. cbn. rewrite app_length. cbn. now rewrite Nat.add_1_r. Qed.
+Lemma wf0_alloc_flag o : wf0 o -> wf0 (fst (alloc_flag o)).
+Proof.
+  intros (A & B & C & D). unfold wf0, get_flag. rewrite flags_alloc_flag, app_length. cbn [length].
+  split; [|split; [|split; reflexivity || assumption]].
+  - intros n. rewrite kind_alloc_flag. destruct (Nat.eqb n (S (length (notifs o)))); [lia|].
+    destruct (Nat.eqb n (length (notifs o))); [lia|]. specialize (A n). destruct (kind_of o n); auto; lia.
+  - intros f Hf. rewrite !kind_alloc_flag. destruct (Nat.eq_dec f (length (flags o))) as [->|Ne].
+    + rewrite app_nth2, Nat.sub_diag by auto. cbn [nth fnid finv]. rewrite !Nat.eqb_refl.
+      destruct (Nat.eqb_spec (length (notifs o)) (S (length (notifs o)))); [lia|auto].
+    + assert (Hf' : f < length (flags o)) by lia. rewrite app_nth1 by auto. destruct (B f Hf') as [B1 B2].
+      fold (get_flag o f).
+      assert (L1 : fnid (get_flag o f) < length (notifs o)) by (apply kind_range; rewrite B1; discriminate).
+      assert (L2 : finv (get_flag o f) < length (notifs o)) by (apply kind_range; rewrite B2; discriminate).
+      repeat match goal with |- context [Nat.eqb ?x ?y] => destruct (Nat.eqb_spec x y); [lia|] end. auto.
+Qed.
+Lemma iter_inv {A} (P : A -> Prop) f : (forall x, P x -> P (f x)) -> forall n x, P x -> P (iter n f x).
+Proof. intros H. induction n; cbn; auto. Qed.
+Lemma wf0_alloc_lock o : wf0 o -> wf0 (alloc_lock o).
+Proof.
+  intros H. apply wf0_grow with (o := o) (l := [{| nk := NPlain; waiting := []; trig := false |}]); auto; try reflexivity; repeat constructor.
+Qed.
+Lemma wf0_alloc_queue o : wf0 o -> wf0 (alloc_queue o).
+Proof.
+  intros H. apply wf0_grow with (o := alloc_lock (fst (alloc_notif o NPlain))) (l := []); try reflexivity; auto.
+  - apply wf0_alloc_lock.
+    apply wf0_grow with (o := o) (l := [{| nk := NPlain; waiting := []; trig := false |}]); auto; try reflexivity; repeat constructor.
+  - cbn. now rewrite app_nil_r.
+Qed.
+Lemma wf0_alloc_chan o : wf0 o -> wf0 (alloc_chan o).
+Proof.
+  intros H. apply wf0_grow with (o := o) (l := [{| nk := NPlain; waiting := []; trig := false |}]); auto; try reflexivity; repeat constructor.
+Qed.
+Theorem wf_init_objs s nroots : wf (init_objs s nroots).
+Proof.
+  apply wf0_wf. unfold init_objs.
+  repeat (apply iter_inv; [first [apply wf0_alloc_chan | apply wf0_alloc_queue | apply wf0_alloc_lock]|]).
+  eapply wf0_grow with (l := []); try reflexivity; auto.
+  2:{ cbn. now rewrite app_nil_r. }
+  apply iter_inv; [apply wf0_alloc_flag|]. apply wf0_empty.
+Qed.
+
+(** * C08, never missed: the false-leaf subscription of connectives (fix D4a) *)
+(** soundness: only false leaves are subscribed to *)
+Theorem pending_sound o : graph_wf o -> forall n c, In c (pending_children o n) ->
+  cond_true o c = false /\ is_conn (kind_of o c) = false.
+Proof.
+  intros G n. induction n as [n IH] using lt_wf_ind. intros c. rewrite pending_eq by auto.
+  destruct (is_conn (kind_of o n)); [|contradiction]. rewrite in_flat_map. intros (x & Hx & Hc).
+  unfold pend_child in Hc. destruct (cond_true o x) eqn:Fx; [contradiction|].
+  destruct (is_conn (kind_of o x)) eqn:Cx.
+  - apply (IH x); auto.
+  - destruct Hc as [<-|[]]. auto.
+Qed.
+
+Lemma in_pending o n x c : graph_wf o -> is_conn (kind_of o n) = true -> In x (children (kind_of o n)) ->
+  cond_true o x = false ->
+  (if is_conn (kind_of o x) then In c (pending_children o x) else c = x) -> In c (pending_children o n).
+Proof.
+  intros G C Hx Fx Hc. rewrite pending_eq, C by auto. apply in_flat_map. exists x. split; auto.
+  unfold pend_child. rewrite Fx. destruct (is_conn (kind_of o x)); auto. subst. now left.
+Qed.
+
+(** completeness (the monotonicity argument): negations live in the leaves, so a connective is monotone in
+    its leaves; if it is false now and true later (same objects), one of the leaves it was subscribed to
+    has become true -- and a leaf that becomes true wakes its subscribers (lemmas below) *)
+Theorem monotone_wake_complete o o' : graph_wf o -> same_graph o o' -> forall n,
+  is_conn (kind_of o n) = true -> cond_true o n = false -> cond_true o' n = true ->
+  exists c, In c (pending_children o n) /\ cond_true o c = false /\ cond_true o' c = true.
+Proof.
+  intros G S. assert (G' := same_graph_wf _ _ S G). intros n. induction n as [n IH] using lt_wf_ind. intros C F T.
+  assert (Step : forall x, In x (children (kind_of o n)) -> cond_true o x = false -> cond_true o' x = true ->
+                 exists c, In c (pending_children o n) /\ cond_true o c = false /\ cond_true o' c = true).
+  { intros x Hx Fx Tx. destruct (is_conn (kind_of o x)) eqn:Cx.
+    - destruct (IH x (G _ _ Hx) Cx Fx Tx) as (c & Hc & P). exists c. split; auto.
+      apply (in_pending o n x c); auto. now rewrite Cx.
+    - exists x. split; auto. apply (in_pending o n x x); auto. now rewrite Cx. }
+  rewrite (cond_true_eq o n G) in F. rewrite (cond_true_eq o' n G') in T. unfold cond_step in F, T. rewrite S in T.
+  destruct (kind_of o n) eqn:K; try discriminate C; cbn [children] in Step.
+  - destruct (forallb_false_ex _ _ F) as (x & Hx & Fx). apply (Step x); auto.
+    rewrite forallb_forall in T. auto.
+  - apply existsb_exists in T. destruct T as (x & Hx & Tx). apply (Step x); auto.
+    apply (existsb_false_all _ _ F); auto.
+Qed.
+
+(** a false connective of a well-formed state is subscribed to at least one leaf *)
+Theorem pending_nonempty o : wf o -> forall n,
+  is_conn (kind_of o n) = true -> cond_true o n = false -> pending_children o n <> [].
+Proof.
+  intros W. assert (G := wf_graph _ W). intros n. induction n as [n IH] using lt_wf_ind. intros C F.
+  assert (Step : forall x, In x (children (kind_of o n)) -> cond_true o x = false -> exists c, In c (pending_children o n)).
+  { intros x Hx Fx. destruct (is_conn (kind_of o x)) eqn:Cx.
+    - specialize (IH x (G _ _ Hx) Cx Fx). destruct (pending_children o x) as [|c l] eqn:P; [congruence|].
+      exists c. apply (in_pending o n x c); auto. rewrite Cx, P. now left.
+    - exists x. apply (in_pending o n x x); auto. now rewrite Cx. }
+  assert (N := wf_node _ W n). rewrite (cond_true_eq o n G) in F. unfold cond_step in F.
+  assert (E : exists c, In c (pending_children o n)).
+  { destruct (kind_of o n) eqn:K; try discriminate C; cbn [children node_ok] in *.
+    - destruct (forallb_false_ex _ _ F) as (x & Hx & Fx). eauto.
+    - destruct N as [Ne _]. destruct cs as [|x cs]; [congruence|]. apply (Step x); [now left|].
+      apply (existsb_false_all _ _ F). now left. }
+  destruct E as (c & Hc). intros P. rewrite P in Hc. contradiction.
+Qed.
+
+Lemma flat_map_nil {A B} (f : A -> list B) l : (forall x, In x l -> f x = []) -> flat_map f l = [].
+Proof. induction l as [|a l IH]; cbn; intros H; auto. rewrite (H a), IH; auto. Qed.
+(** for a conjunction: nothing pending iff true *)
+Theorem pending_all_nil_iff o n cs : wf o -> kind_of o n = NAll cs ->
+  (pending_children o n = [] <-> cond_true o n = true).
+Proof.
+  intros W K. assert (G := wf_graph _ W). split.
+  - intros P. destruct (cond_true o n) eqn:F; auto. exfalso. apply (pending_nonempty o W n); auto. now rewrite K.
+  - intros T. rewrite pending_eq, K by auto. cbn [is_conn children]. apply flat_map_nil. intros x Hx.
+    rewrite (cond_true_eq o n G) in T. unfold cond_step in T. rewrite K, forallb_forall in T.
+    unfold pend_child. now rewrite (T x Hx).
+Qed.
+(** without the non-emptiness invariant: a false connective with nothing pending can never become true *)
+Corollary pending_nil_stuck o o' n : graph_wf o -> same_graph o o' -> is_conn (kind_of o n) = true ->
+  cond_true o n = false -> pending_children o n = [] -> cond_true o' n = false.
+Proof.
+  intros G S C F P. destruct (cond_true o' n) eqn:T; auto.
+  destruct (monotone_wake_complete o o' G S n C F T) as (c & Hc & _). rewrite P in Hc. contradiction.
+Qed.
+
+(** ** every leaf class wakes its whole waiting list when it becomes true *)
+Definition wake_ops (l : list (aid * sid)) : list kop := map (fun '(a, s) => KNow a (Some s)) l.
+
+Lemma get_set_notif o n x m :
+  get_notif (set_notif o n x) m = if Nat.eqb m n && Nat.ltb n (length (notifs o)) then x else get_notif o m.
+Proof.
+  unfold set_notif, get_notif. cbn [notifs set]. destruct (Nat.ltb_spec n (length (notifs o))) as [L|L];
+    destruct (Nat.eqb_spec m n) as [->|N]; cbn [andb].
+  - cbn. now rewrite nth_list_upd_eq.
+  - cbn. now rewrite nth_list_upd_ne.
+  - cbn. now rewrite list_upd_oob.
+  - cbn. now rewrite nth_list_upd_ne.
+Qed.
+Lemma set_notif_same_graph o n x : nk x = nk (get_notif o n) -> same_graph o (set_notif o n x).
+Proof. intros H m. unfold kind_of. rewrite get_set_notif. destruct (_ && _) eqn:E; auto. apply andb_true_iff in E. destruct E as [E _]. apply Nat.eqb_eq in E. now subst. Qed.
+Lemma set_notif_env o n x : env_same o (set_notif o n x).
+Proof. repeat split. Qed.
+Lemma get_notif_oob o n : length (notifs o) <= n -> get_notif o n = dnotif.
+Proof. intros H. unfold get_notif. now rewrite nth_overflow. Qed.
+
+Lemma awake_all_spec o n o' ks : awake_all o n = (o', ks) ->
+  ks = wake_ops (waiting (get_notif o n)) /\ waiting (get_notif o' n) = [] /\ same_graph o o' /\ env_same o o' /\
+  (forall m, m <> n -> get_notif o' m = get_notif o m).
+Proof.
+  unfold awake_all. intros H. inversion H; subst. split; [reflexivity|]. split.
+  - rewrite get_set_notif, Nat.eqb_refl. cbn [andb]. destruct (Nat.ltb_spec n (length (notifs o))); auto.
+    now rewrite get_notif_oob.
+  - split; [now apply set_notif_same_graph|]. split; [apply set_notif_env|]. intros m Hm. rewrite get_set_notif.
+    apply Nat.eqb_neq in Hm. now rewrite Hm.
+Qed.
+
+(** [Flag.set(True)] on a false flag: every waiter of the flag condition is scheduled, nobody stays parked *)
+Theorem flag_set_rising o f o' ks : fval (get_flag o f) = false -> flag_set_sync o f true = (o', ks) ->
+  let n := fnid (get_flag o f) in
+  ks = wake_ops (waiting (get_notif o n)) /\ waiting (get_notif o' n) = [] /\ same_graph o o' /\
+  (f < length (flags o) -> fval (get_flag o' f) = true).
+Proof.
+  intros F. unfold flag_set_sync. rewrite F. cbn [andb negb]. intros H. apply awake_all_spec in H.
+  destruct H as (A & B & C & (_ & D & _) & _). repeat split; auto. intros Hf. rewrite D.
+  unfold get_flag. cbn. now rewrite nth_list_upd_eq.
+Qed.
+(** [Flag.set(False)] on a true flag: the same for the waiters of [~flag] *)
+Theorem flag_set_falling o f o' ks : fval (get_flag o f) = true -> flag_set_sync o f false = (o', ks) ->
+  let n := finv (get_flag o f) in
+  ks = wake_ops (waiting (get_notif o n)) /\ waiting (get_notif o' n) = [] /\ same_graph o o' /\
+  (f < length (flags o) -> fval (get_flag o' f) = false).
+Proof.
+  intros F. unfold flag_set_sync. rewrite F. cbn [andb negb]. intros H. apply awake_all_spec in H.
+  destruct H as (A & B & C & (_ & D & _) & _). repeat split; auto. intros Hf. rewrite D.
+  unfold get_flag. cbn. now rewrite nth_list_upd_eq.
+Qed.
+(** [Done.__set_done__] *)
+Theorem set_done_wakes o t o' ks : set_done o t = (o', ks) ->
+  let n := t_done (get_task o t) in
+  ks = wake_ops (waiting (get_notif o n)) /\ waiting (get_notif o' n) = [] /\ same_graph o o' /\
+  (t < length (tasks o) -> t_doneval (get_task o' t) = true).
+Proof.
+  unfold set_done. intros H. apply awake_all_spec in H.
+  destruct H as (A & B & C & (_ & _ & _ & D) & _). repeat split; auto. intros Ht. rewrite D.
+  unfold get_task, set_task. cbn. now rewrite nth_list_upd_eq.
+Qed.
+
+(** [Tracked.set]: every registered comparison that is true for the new value wakes all its waiters *)
+Definition tstep : objs * list kop -> nid -> objs * list kop :=
+  fun '(o', ks) n => if cond_true o' n then let '(o'', ks') := awake_all o' n in (o'', ks ++ ks') else (o', ks).
+Definition woken (o1 oc : objs) (ks : list kop) (m : nid) : Prop :=
+  waiting (get_notif oc m) = [] /\ forall a w, In (a, w) (waiting (get_notif o1 m)) -> In (KNow a (Some w)) ks.
+Definition tinv (o1 oc : objs) (ks : list kop) : Prop :=
+  same_graph o1 oc /\ env_same o1 oc /\
+  forall m, waiting (get_notif oc m) = waiting (get_notif o1 m) \/ woken o1 oc ks m.
+
+Lemma env_same_trans a b c : env_same a b -> env_same b c -> env_same a c.
+Proof. intros (A1 & A2 & A3 & A4) (B1 & B2 & B3 & B4). repeat split; intros; congruence. Qed.
+Lemma in_wake_ops a w l : In (a, w) l -> In (KNow a (Some w)) (wake_ops l).
+Proof. intros H. unfold wake_ops. apply in_map_iff. exists (a, w). auto. Qed.
+
+Lemma tfold o1 : graph_wf o1 -> forall L oc ks o' ks', tinv o1 oc ks -> fold_left tstep L (oc, ks) = (o', ks') ->
+  tinv o1 o' ks' /\ (forall m, woken o1 oc ks m -> woken o1 o' ks' m) /\
+  forall m, In m L -> cond_true o1 m = true -> woken o1 o' ks' m.
+Proof.
+  intros G. induction L as [|n L IH]; intros oc ks o' ks' Inv Eq; cbn [fold_left] in Eq.
+  - inversion Eq; subst. split; [exact Inv|]. split; [auto|]. intros m [].
+  - destruct Inv as (S & E & Wt).
+    assert (Tn : cond_true oc n = cond_true o1 n) by (apply cond_true_same; auto).
+    unfold tstep at 2 in Eq. rewrite Tn in Eq. destruct (cond_true o1 n) eqn:T.
+    + destruct (awake_all oc n) as [ob kb] eqn:Ea. destruct (awake_all_spec _ _ _ _ Ea) as (A & B & C & D & O).
+      assert (Wn : woken o1 ob (ks ++ kb) n).
+      { split; auto. intros a w H. apply in_or_app. destruct (Wt n) as [Q|[_ Q]]; [right|left; auto].
+        subst kb. rewrite Q. now apply in_wake_ops. }
+      assert (Mono : forall m, woken o1 oc ks m -> woken o1 ob (ks ++ kb) m).
+      { intros m [Q1 Q2]. destruct (Nat.eq_dec m n) as [->|Ne]; auto. split; [now rewrite O|].
+        intros a w H. apply in_or_app. left. auto. }
+      assert (Inv' : tinv o1 ob (ks ++ kb)).
+      { split; [intros m; now rewrite C|]. split; [eapply env_same_trans; eauto|]. intros m.
+        destruct (Nat.eq_dec m n) as [->|Ne]; auto. destruct (Wt m) as [Q|Q]; auto. left. now rewrite O. }
+      destruct (IH _ _ _ _ Inv' Eq) as (I1 & I2 & I3). split; auto. split; auto.
+      intros m [<-|Hm] Tm; auto.
+    + destruct (IH _ _ _ _ (conj S (conj E Wt)) Eq) as (I1 & I2 & I3). split; auto. split; auto.
+      intros m [<-|Hm] Tm; [congruence|auto].
+Qed.
+
+Theorem tracked_set_wakes o v z o' ks : graph_wf o -> tracked_set_sync o v z = (o', ks) ->
+  let o1 := o <| tracked := list_upd (tracked o) v ((get_track o v) <| tval := z |>) |> in
+  same_graph o o' /\ env_same o1 o' /\
+  forall n, In n (tlisteners (get_track o v)) -> cond_true o' n = true ->
+    waiting (get_notif o' n) = [] /\ forall a w, In (a, w) (waiting (get_notif o n)) -> In (KNow a (Some w)) ks.
+Proof.
+  intros G H o1. unfold tracked_set_sync in H. fold o1 in H.
+  assert (G1 : graph_wf o1) by exact G.
+  assert (I0 : tinv o1 o1 []) by (repeat split; auto).
+  destruct (tfold o1 G1 _ _ _ _ _ I0 H) as ((S & E & _) & _ & Wk). split; [exact S|]. split; [exact E|].
+  intros n Hn T. apply (Wk n Hn). rewrite <- T. symmetry. apply cond_true_same; auto.
+Qed.
+
+(** [After]: subscribing to a date that has not come arms the one-shot trigger activity (fix D3), which
+    runs [awake_all] on the condition when it executes (at the date: kernel theorem C01) *)
+Theorem subscribe_after_false o n d a w : graph_wf o -> n < length (notifs o) -> kind_of o n = NAfter d ->
+  cond_true o n = false ->
+  exists o' ks sp, subscribe_pres o n a w = mkpres o' ks sp (inl VU) /\
+    In (a, w) (waiting (get_notif o' n)) /\ trig (get_notif o' n) = true /\
+    (trig (get_notif o n) = false ->
+     In (KAt d (length (astat o)) None) ks /\ In (length (astat o), trigger_prog n) sp).
+Proof.
+  intros G L K F. unfold subscribe_pres. change (nk (get_notif o n)) with (kind_of o n). rewrite K, F.
+  apply Nat.ltb_lt in L.
+  unfold ensure_trigger. destruct (trig (get_notif o n)) eqn:Tr.
+  - cbn. unfold cond_subscribe. rewrite F. cbn. eexists _, _, _. split; [reflexivity|].
+    unfold plain_subscribe. rewrite get_set_notif, Nat.eqb_refl, L. cbn. split; [|split; [auto|discriminate]].
+    apply in_or_app. right. now left.
+  - assert (Lt : xltb (onow o) d = true).
+    { rewrite (cond_true_eq o n G) in F. unfold cond_step in F. rewrite K in F. now apply xleb_false_xltb. }
+    rewrite Lt. set (o1 := set_notif o n _).
+    assert (F1 : cond_true o1 n = false).
+    { rewrite <- F. apply cond_true_same; auto; [apply set_notif_same_graph; reflexivity | apply set_notif_env]. }
+    unfold cond_subscribe. rewrite F1. cbn. eexists _, _, _. split; [reflexivity|].
+    unfold plain_subscribe. rewrite get_set_notif, Nat.eqb_refl.
+    assert (L1 : Nat.ltb n (length (notifs o1)) = true) by (unfold o1, set_notif; cbn; now rewrite length_list_upd).
+    rewrite L1. cbn [andb]. unfold o1 at 1 2. rewrite get_set_notif, Nat.eqb_refl, L. cbn.
+    split; [apply in_or_app; right; now left|]. split; auto.
+    apply Nat.ltb_lt in L. now rewrite nth_list_upd_eq.
+Qed.
+
+(** * C08: subscribing to a true condition delivers immediately, nobody is parked on a true condition *)
+Theorem subscribe_true_immediate o n a w : wf o -> cond_true o n = true ->
+  subscribe_pres o n a w = okk o [KMark w; KNow a (Some w)].
+Proof.
+  intros W T. assert (G := wf_graph _ W). pose proof T as T0. rewrite (cond_true_eq o n G) in T0. unfold cond_step in T0.
+  assert (N := wf_node _ W n).
+  unfold subscribe_pres. change (nk (get_notif o n)) with (kind_of o n).
+  destruct (kind_of o n) eqn:K; try discriminate T0; try (unfold cond_subscribe; rewrite T; reflexivity).
+  destruct N as [_ Ka]. apply xeqb_eq in T0.
+  assert (Ta : cond_true o after = true).
+  { rewrite (cond_true_eq o after G). unfold cond_step. rewrite Ka, T0. apply xle_refl. }
+  rewrite T0. destruct (xltb d d) eqn:X; [exfalso; exact (xlt_irrefl d X)|].
+  rewrite Ta. unfold cond_subscribe. rewrite Ta. reflexivity.
+Qed.
+Corollary never_parked_on_true o n a w o' ks sp r : wf o -> cond_true o n = true ->
+  subscribe_pres o n a w = mkpres o' ks sp r -> o' = o /\ In (KNow a (Some w)) ks /\ r = inl VU.
+Proof. intros W T H. rewrite (subscribe_true_immediate o n a w W T) in H. inversion H; subst. cbn. auto. Qed.
+(** and a condition-class subscription parks exactly when the condition is false *)
+Theorem cond_subscribe_spec o n a w :
+  cond_subscribe o n a w = if cond_true o n then okk o [KMark w; KNow a (Some w)] else oku (plain_subscribe o n a w).
+Proof. reflexivity. Qed.
+
+(** * [wf] is kept by the run-time allocation of flags and by the value setters / waiting-list operations *)
+Record grows (o o' : objs) : Prop := mk_grows {
+  gr_kind : forall n, n < length (notifs o) -> kind_of o' n = kind_of o n;
+  gr_flags : length (flags o) <= length (flags o');
+  gr_tasks : length (tasks o) <= length (tasks o');
+  gr_tlen : length (tracked o) <= length (tracked o');
+  gr_tlis : forall v x, In x (tlisteners (get_track o v)) -> In x (tlisteners (get_track o' v)) }.
+Lemma node_ok_grows o o' n k : grows o o' -> node_ok o n k -> node_ok o' n k.
+Proof.
+  intros [K F T L I]. destruct k; cbn; auto; try lia.
+  - intros [H1 H2]; split; auto. rewrite K; auto. apply kind_range. rewrite H2. discriminate.
+  - intros [H1 H2]; split; auto. lia.
+  - intros (H1 & H2 & H3 & H4). repeat split; auto; lia.
+Qed.
+Lemma grows_alloc_flag o : grows o (fst (alloc_flag o)).
+Proof.
+  split; auto.
+  - intros n Hn. rewrite kind_alloc_flag.
+    repeat match goal with |- context [Nat.eqb ?x ?y] => destruct (Nat.eqb_spec x y); [lia|] end. auto.
+  - rewrite flags_alloc_flag, app_length. lia.
+Qed.
+Theorem wf_alloc_flag o : wf o -> wf (fst (alloc_flag o)).
+Proof.
+  intros W. pose proof (grows_alloc_flag o) as Gr. split.
+  - intros n. rewrite kind_alloc_flag.
+    destruct (Nat.eqb n (S (length (notifs o)))); [cbn [node_ok]; rewrite flags_alloc_flag, app_length; cbn; lia|].
+    destruct (Nat.eqb n (length (notifs o))); [cbn [node_ok]; rewrite flags_alloc_flag, app_length; cbn; lia|].
+    apply node_ok_grows with o; auto. apply W.
+  - unfold get_flag. rewrite flags_alloc_flag, app_length. cbn [length].
+    intros f Hf. rewrite !kind_alloc_flag. destruct (Nat.eq_dec f (length (flags o))) as [->|Ne].
+    + rewrite app_nth2, Nat.sub_diag by auto. cbn [nth fnid finv]. rewrite !Nat.eqb_refl.
+      destruct (Nat.eqb_spec (length (notifs o)) (S (length (notifs o)))); [lia|auto].
+    + assert (Hf' : f < length (flags o)) by lia. rewrite app_nth1 by auto. destruct (wf_flag _ W f Hf') as [B1 B2].
+      fold (get_flag o f).
+      assert (L1 : fnid (get_flag o f) < length (notifs o)) by (apply kind_range; rewrite B1; discriminate).
+      assert (L2 : finv (get_flag o f) < length (notifs o)) by (apply kind_range; rewrite B2; discriminate).
+      repeat match goal with |- context [Nat.eqb ?x ?y] => destruct (Nat.eqb_spec x y); [lia|] end. auto.
+  - intros t Ht. change (tasks (fst (alloc_flag o))) with (tasks o) in Ht.
+    change (get_task (fst (alloc_flag o)) t) with (get_task o t). destruct (wf_task _ W t Ht) as [A B].
+    rewrite !(gr_kind _ _ Gr); auto; apply kind_range; [rewrite B|rewrite A]; discriminate.
+  - exact (wf_tnames _ W).
+Qed.
+
+Record shape_same (o o' : objs) : Prop := mk_shape {
+  sh_graph : same_graph o o';
+  sh_flen : length (flags o') = length (flags o);
+  sh_flag : forall f, fnid (get_flag o' f) = fnid (get_flag o f) /\ finv (get_flag o' f) = finv (get_flag o f);
+  sh_tlen : length (tasks o') = length (tasks o);
+  sh_task : forall t, t_done (get_task o' t) = t_done (get_task o t) /\ t_notdone (get_task o' t) = t_notdone (get_task o t);
+  sh_tnames : tnames o' = tnames o;
+  sh_trlen : length (tracked o') = length (tracked o);
+  sh_lis : forall v, tlisteners (get_track o' v) = tlisteners (get_track o v) }.
+Lemma wf_shape o o' : wf o -> shape_same o o' -> wf o'.
+Proof.
+  intros W [S Fl Ff Tl Tt Tn Trl Li]. split.
+  - intros n. rewrite S. assert (N := wf_node _ W n). destruct (kind_of o n); cbn in *; rewrite ?Fl, ?Tl, ?Trl, ?Li, ?S; auto.
+  - intros f. rewrite Fl. intros Hf. destruct (Ff f) as [-> ->]. rewrite !S. apply W, Hf.
+  - intros t. rewrite Tl. intros Ht. destruct (Tt t) as [-> ->]. rewrite !S. apply W, Ht.
+  - rewrite Tn, Tl. apply W.
+Qed.
+Lemma shape_trans a b c : shape_same a b -> shape_same b c -> shape_same a c.
+Proof.
+  intros [S Fl Ff Tl Tt Tn Trl Li] [S' Fl' Ff' Tl' Tt' Tn' Trl' Li']. split.
+  - intros n. now rewrite S', S.
+  - congruence.
+  - intros f. destruct (Ff f), (Ff' f). split; congruence.
+  - congruence.
+  - intros t. destruct (Tt t), (Tt' t). split; congruence.
+  - congruence.
+  - congruence.
+  - intros v. now rewrite Li', Li.
+Qed.
+Lemma nth_list_upd_proj {A B} (p : A -> B) (l : list A) i j x d :
+  p x = p (nth j l d) -> p (nth i (list_upd l j x) d) = p (nth i l d).
+Proof.
+  intros H. destruct (Nat.eq_dec i j) as [->|Ne]; [|now rewrite nth_list_upd_ne].
+  destruct (Nat.lt_ge_cases j (length l)); [now rewrite nth_list_upd_eq | now rewrite list_upd_oob].
+Qed.
+Lemma shape_set_notif o n x : nk x = nk (get_notif o n) -> shape_same o (set_notif o n x).
+Proof. intros H. split; auto; try reflexivity. now apply set_notif_same_graph. Qed.
+Lemma shape_set_fval o f b : shape_same o (o <| flags := list_upd (flags o) f ((get_flag o f) <| fval := b |>) |>).
+Proof.
+  split; auto; try reflexivity; try (intros n; reflexivity).
+  - cbn. apply length_list_upd.
+  - intros f'. unfold get_flag. cbn. split; apply (nth_list_upd_proj _ (flags o)); reflexivity.
+Qed.
+Lemma shape_set_tval o v z : shape_same o (o <| tracked := list_upd (tracked o) v ((get_track o v) <| tval := z |>) |>).
+Proof.
+  split; auto; try reflexivity; try (intros n; reflexivity).
+  - cbn. apply length_list_upd.
+  - intros v'. unfold get_track. cbn. apply (nth_list_upd_proj _ (tracked o)); reflexivity.
+Qed.
+Lemma shape_set_doneval o t b : shape_same o (set_task o t ((get_task o t) <| t_doneval := b |>)).
+Proof.
+  split; auto; try reflexivity; try (intros n; reflexivity).
+  - cbn. apply length_list_upd.
+  - intros t'. unfold get_task, set_task. cbn. split; apply (nth_list_upd_proj _ (tasks o)); reflexivity.
+Qed.
+Lemma wf_awake_all o n : wf o -> wf (fst (awake_all o n)).
+Proof. intros W. eapply wf_shape; eauto. apply shape_set_notif. reflexivity. Qed.
+Lemma wf_plain_subscribe o n a w : wf o -> wf (plain_subscribe o n a w).
+Proof. intros W. eapply wf_shape; eauto. apply shape_set_notif. reflexivity. Qed.
+Theorem wf_flag_set o f b : wf o -> wf (fst (flag_set_sync o f b)).
+Proof.
+  intros W. unfold flag_set_sync. destruct (b && negb (fval (get_flag o f))); [|destruct (fval (get_flag o f) && negb b); auto];
+    apply wf_awake_all; eapply wf_shape; eauto; apply shape_set_fval.
+Qed.
+Theorem wf_set_done o t : wf o -> wf (fst (set_done o t)).
+Proof. intros W. unfold set_done. apply wf_awake_all. eapply wf_shape; eauto. apply shape_set_doneval. Qed.
+Theorem wf_tracked_set o v z : wf o -> wf (fst (tracked_set_sync o v z)).
+Proof.
+  intros W. unfold tracked_set_sync.
+  assert (F : forall L oc ks, wf oc -> wf (fst (fold_left tstep L (oc, ks)))).
+  { induction L as [|n L IH]; intros oc ks Wc; cbn [fold_left]; auto. unfold tstep at 2.
+    destruct (cond_true oc n); auto. destruct (awake_all oc n) as [ob kb] eqn:Ea. apply IH.
+    change ob with (fst (ob, kb)). rewrite <- Ea. now apply wf_awake_all. }
+  apply F. eapply wf_shape; eauto. apply shape_set_tval.
+Qed.
+
+(** a family of concrete well-formed states for the non-vacuity examples of props/C08.v *)
+Definition ex_state (nflags : nat) (tr : list Z) : objs :=
+  (iter nflags (fun o => fst (alloc_flag o)) (empty_objs (Fin 0) 1))
+    <| tracked := map (fun z => {| tval := z; tlisteners := [] |}) tr |>.
+Lemma wf_ex_state nflags tr : wf (ex_state nflags tr).
+Proof.
+  apply wf0_wf. unfold ex_state. eapply wf0_grow with (l := []); try reflexivity; auto.
+  2:{ cbn. now rewrite app_nil_r. }
+  apply iter_inv; [apply wf0_alloc_flag|]. apply wf0_empty.
+Qed.
